@@ -17,24 +17,11 @@ template <class X> static void log_rot(Out& o, const X& x) {
   for (int i = 0; i < n; ++i) { if (i) std::fputc(',', o.f); o.bits((double)x.coeffs()(Info<G>::coff + i)); } std::fputc(']', o.f);
   bool fin = true; for (int i = 0; i < G::RepSize; ++i) fin = fin && std::isfinite((double)x.coeffs()(i)); o.num("allfinite", fin ? 1 : 0);
 }
-int main(int argc, char** argv) {
-  if (argc < 4) return 2; install_terminate();
-  auto plan = read_plan(argv[1]); out().open(argv[2]); uint64_t seed = std::strtoull(argv[3], 0, 10); Out& o = out(); long ln = 0;
-#ifdef NDEBUG
-  const char* mode = "ndebug";
-#else
-  const char* mode = "assert";
-#endif
-  for (auto& pl : plan) {
-    ++ln; if (pl[1] != REC_KEY) continue;
-    const std::string prog = pl[0]; long steps = std::atol(pl[2].c_str()), full = std::atol(pl[3].c_str());
-    Rng r(seed * 999983 + ln * 7919 + std::hash<std::string>()(REC_KEY));
-    // adversarial single-operation programs run on pure rotations (zero linear parts stay zero; otherwise repeated
-    // squaring doubles the translation until it overflows, which is arithmetic, not a defect)
-    const char* lin0 = prog == "walk" ? "1" : "zero";
-    G X = draw_element<G>("generic", lin0, "any", "generic", r), Y = draw_element<G>("near_pi", lin0, "any", "generic", r), Z = G::Identity();
+// one program over registers of storage kind GX (owning G or Eigen::Map<G> over user buffers)
+template <class GX> static void run_prog(const std::string& prog, const std::string& progname, long steps, long full, Rng& r, GX& X, GX& Y, const char* mode) {
+  Out& o = out(); G Z = G::Identity();
     long double dmin = 0, dmax = 0; long from = 1; int nonfinite = 0;
-    o.begin("wstart"); o.raw("g", Info<G>::name()); o.str("sc", ScalarName<S>::n()); o.str("prog", prog); o.str("mode", mode); o.num("steps", steps); o.end();
+    o.begin("wstart"); o.raw("g", Info<G>::name()); o.str("sc", ScalarName<S>::n()); o.str("prog", progname); o.str("mode", mode); o.num("steps", steps); o.end();
     for (long k = 1; k <= steps; ++k) {
       std::string op; long double d1 = dev(X), d2 = 0; int composed = 0;
       try {
@@ -51,7 +38,7 @@ int main(int argc, char** argv) {
         else if (c == 5) { d2 = dev(Y); X *= Y; op = "x*=y"; composed = 1; }
         else if (c == 6) { Y = draw_tangent<G>("near_pi", "1", "generic", r).exp(); op = "y=exp(t)"; }
         else if (c == 7) { X = manif::interpolate(X, Y, (S)r.u(0, 1), manif::INTERP_METHOD::SLERP); op = "x=interpolate"; }
-        else if (c == 8) { std::vector<G> v; v.push_back(X); v.push_back(X + draw_tangent<G>("mid_hi", "1e-3", "generic", r)); v.push_back(X + draw_tangent<G>("mid_hi", "1e-3", "generic", r)); X = manif::average_biinvariant(v); op = "x=average"; }
+        else if (c == 8) { std::vector<G> v; v.push_back(G(X)); v.push_back(X + draw_tangent<G>("mid_hi", "1e-3", "generic", r)); v.push_back(X + draw_tangent<G>("mid_hi", "1e-3", "generic", r)); X = manif::average_biinvariant(v); op = "x=average"; }
         else if (c == 9) { X = X.template cast<float>().template cast<S>(); op = "x=cast"; }
         else if (c == 10) { Y = G::Random(); op = "y=random"; }
         else if (c == 11) { d2 = d1; X = X * X; op = "x=x*x"; composed = 1; }
@@ -61,7 +48,7 @@ int main(int argc, char** argv) {
       // keep the linear coordinates of the random walk in a realistic range
       if (prog == "walk" && (X.coeffs().cwiseAbs().maxCoeff() > (S)1e6 || Y.coeffs().cwiseAbs().maxCoeff() > (S)1e6)) {
         X = draw_element<G>("generic", "1", "any", "generic", r); Y = draw_element<G>("near_pi", "1", "any", "generic", r); op += ";reset"; composed = 0; }
-      const G& Rr = composed == 2 ? Y : X;
+      const GX& Rr = composed == 2 ? Y : X;
       long double d = dev(Rr); bool fin = true; for (int i = 0; i < G::RepSize; ++i) fin = fin && std::isfinite((double)X.coeffs()(i)) && std::isfinite((double)Y.coeffs()(i));
       if (!fin) nonfinite++;
       dmin = std::min(dmin, d); dmax = std::max(dmax, d);
@@ -70,6 +57,32 @@ int main(int argc, char** argv) {
         o.sc("dself", (double)d); o.num("composed", composed ? 1 : 0); o.sc("d1", (double)d1); o.sc("d2", (double)d2); o.end();
       }
       if (k % 1000 == 0 || k == steps) { o.begin("wsum"); o.raw("g", Info<G>::name()); o.str("sc", ScalarName<S>::n()); o.str("mode", mode); o.num("from", from); o.num("to", k); o.sc("dmin", (double)dmin); o.sc("dmax", (double)dmax); o.num("nonfinite", nonfinite); o.end(); from = k + 1; dmin = dmax = 0; nonfinite = 0; }
+    }
+}
+
+int main(int argc, char** argv) {
+  if (argc < 4) return 2; install_terminate();
+  auto plan = read_plan(argv[1]); out().open(argv[2]); uint64_t seed = std::strtoull(argv[3], 0, 10); Out& o = out(); long ln = 0;
+#ifdef NDEBUG
+  const char* mode = "ndebug";
+#else
+  const char* mode = "assert";
+#endif
+  for (auto& pl : plan) {
+    ++ln; if (pl[1] != REC_KEY) continue;
+    const bool view = pl[0].size() > 5 && pl[0].compare(pl[0].size() - 5, 5, "_view") == 0;
+    const std::string progname = pl[0]; const std::string prog = view ? progname.substr(0, progname.size() - 5) : progname;
+    long steps = std::atol(pl[2].c_str()), full = std::atol(pl[3].c_str());
+    Rng r(seed * 999983 + ln * 7919 + std::hash<std::string>()(REC_KEY));
+    // adversarial single-operation programs run on pure rotations (zero linear parts stay zero; otherwise repeated
+    // squaring doubles the translation until it overflows, which is arithmetic, not a defect)
+    const char* lin0 = prog == "walk" ? "1" : "zero";
+    const G X0 = draw_element<G>("generic", lin0, "any", "generic", r), Y0 = draw_element<G>("near_pi", lin0, "any", "generic", r);
+    if (!view) { G X = X0, Y = Y0; run_prog(prog, progname, steps, full, r, X, Y, mode); }
+    else {
+      // the same programs with the registers living in user buffers behind mutable views
+      S bx[G::RepSize], by[G::RepSize]; Eigen::Map<G> X(bx), Y(by); X = X0; Y = Y0;
+      run_prog(prog, progname, steps, full, r, X, Y, mode);
     }
   }
   out().close(); return 0;
